@@ -23,7 +23,7 @@ use std::{
     collections::HashMap,
     sync::{Arc, RwLock},
 };
-use tracing::{debug, info};
+use tracing::{debug, error, info};
 
 #[derive(Clone)]
 pub struct Task {
@@ -1084,6 +1084,11 @@ impl Task {
                 });
 
                 if is_updated {
+                    // the scope that took the value is written to the store as well
+                    self.runtime
+                        .cache()
+                        .upsert(t)
+                        .unwrap_or_else(|err| error!("update_data upsert={}", err));
                     break;
                 }
             }
